@@ -83,6 +83,9 @@ def check_application(rule_name: str, root, node, envs=None) -> List[Dict[str, A
     if not can:
         return fails
     work = node.clone_from_root()
+    if path_of(work) != path_of(node) or kind(work) != kind(node) or work.get_root() is root:
+        fail("C07", "clone/locates-node", f"clone_from_root returned the node at '{path_of(work)}' for the node at '{path_of(node)}'")
+        return fails
     before_vals = [evaluate(root, e) for e in envs]
     try:
         change = rule.apply_to(work)
